@@ -1180,6 +1180,40 @@ def unit_agreement(ctx, rid, prefixes=("solution::", "solver::", "model::")):
             seen += 1
             if u1[0] != u2[0]:
                 bad.append((c, u1[0], u2[0]))
+    # the cost rates of the configuration are per second: every duration that meets a rate is converted with in_sec()
+    o2 = ctx.ob("%s.durations-priced-in-seconds" % rid, "T12", "workspace",
+                "in every function that reads a cost rate (CostsConfig) durations are converted with in_sec(), never with another unit")
+    COSTS_ = "field:model::config::CostsConfig."
+    n_sec, wrong = 0, []
+    for k in sorted(ctx.prog.bodies):
+        b = ctx.prog.bodies[k]
+        if not k.lstrip("<").startswith(prefixes) or getattr(b, "test_unit", False) or b.is_closure:
+            continue
+        fam = ctx.prog.family(k)
+        convs = [(k2, c) for k2 in fam for c in ctx.prog.bodies[k2].calls() if (c.callee or "").split("::")[-1] in ("in_sec", "in_min", "in_hour")
+                 and "duration" in (c.callee or "").lower()]
+        if not convs:
+            continue
+        reads_rate = False
+        for k2 in fam:
+            f2 = ctx.fd(k2)
+            if f2 is not None and any(a.startswith(COSTS_) for a in f2.slice(seed_locals=list(range(len(f2.body.locals))), control=False)["atoms"]):
+                reads_rate = True
+                break
+        if not reads_rate:
+            continue
+        for k2, c in convs:
+            if (c.callee or "").endswith("in_sec"):
+                n_sec += 1
+            else:
+                wrong.append(c)
+    if wrong:
+        ctx.bad(o2, "%s() at %s in a function that prices time with the per-second cost rates: the amount is off by the conversion factor"
+                % ((wrong[0].callee or "").split("::")[-1], wrong[0].line()), loc=wrong[0].line())
+    elif n_sec:
+        ctx.ok(o2, "%d conversion(s), all in_sec()" % n_sec)
+    else:
+        ctx.undecided(o2, "no priced duration found")
     if bad:
         c, a, b_ = bad[0]
         ctx.bad(o, "at %s a value in %s falls back to one in %s: the figure computed here is off by the conversion factor whenever the fallback "
